@@ -92,11 +92,11 @@ def labelsPerValues (s : Disc) (outFloat : Bool) : Except Err (List (String × L
 
 /-- `BaseDiscretizer.fit`: missing-orders guard then the label table (the refit guard is modelled
     in `Validate`) -/
-def fit (s : Disc) : Except Err Disc := do
-  if s.features.any (fun f => (aget? s.orders f).isNone) then
-    throw (Err.assertion "Missing values_orders")
-  let t ← s.labelsPerValues s.outFloat
-  pure { s with lpv := t }
+def fit (s : Disc) : Except Err Disc :=
+  if s.features.any (fun f => (aget? s.orders f).isNone) then .error (Err.assertion "Missing values_orders")
+  else match s.labelsPerValues s.outFloat with
+    | .error e => .error e
+    | .ok t => .ok { s with lpv := t }
 
 /-! ### transform -/
 
